@@ -43,7 +43,7 @@ class PyLib:
                         continue
                     seen.add(key)
                     ovs.append({'vec': vec, 'tag': 100 + len(ovs) + 10 * len(c['ovsets'])})
-                c['ovsets'].append({'name': nm, 'overloads': ovs})
+                c['ovsets'].append({'name': nm, 'overloads': ovs, 'const': rng.random() < 0.3})       # the whole set const or not: a mixed set makes calls ambiguous in C++
             for _ in range(rng.randrange(0, 3)):
                 nd = rng.randrange(1, 3)
                 c['dflts'].append({'name': self.fresh('dflt'), 'nreq': rng.randrange(0, 3), 'defaults': [rng.randrange(1, 90) for _ in range(nd)]})
@@ -101,7 +101,7 @@ class PyLib:
             L.append('  static int sdk_%s(int a, int b = 1, int c = 2);' % c['name'])
             for s in c['ovsets']:
                 for j, o in enumerate(s['overloads']):
-                    L.append('  int %s(%s);' % (s['name'], ', '.join(self.ctype(cat, cls, i, j % 2) for i, (cat, cls) in enumerate(o['vec']))))
+                    L.append('  int %s(%s)%s;' % (s['name'], ', '.join(self.ctype(cat, cls, i, j % 2) for i, (cat, cls) in enumerate(o['vec'])), ' const' if s['const'] else ''))
             for d in c['dflts']:
                 ps = ['int r%d' % i for i in range(d['nreq'])] + ['int d%d = %d' % (i, v) for i, v in enumerate(d['defaults'])]
                 L.append('  int %s(%s);' % (d['name'], ', '.join(ps)))
@@ -161,7 +161,8 @@ class PyLib:
             L.append('%s::Color %s::next_color(Color c) const { return c == red ? green : (c == green ? blue : red); }' % (n, n))
             for s in c['ovsets']:
                 for j, o in enumerate(s['overloads']):
-                    L.append('int %s::%s(%s) { LAST = "%s#%d"; return %d; }' % (n, s['name'], ', '.join(self.ctype(cat, cls, i, j % 2) for i, (cat, cls) in enumerate(o['vec'])), s['name'], o['tag'], o['tag']))
+                    L.append('int %s::%s(%s)%s { LAST = "%s#%d"; return %d; }' % (n, s['name'], ', '.join(self.ctype(cat, cls, i, j % 2) for i, (cat, cls) in enumerate(o['vec'])),
+                                                                                ' const' if s['const'] else '', s['name'], o['tag'], o['tag']))
             for d in c['dflts']:
                 ps = ['int r%d' % i for i in range(d['nreq'])] + ['int d%d' % i for i in range(len(d['defaults']))]
                 expr = ' + '.join(['%d' % (7)] + ['r%d * %d' % (i, 1000 ** 0 * (i + 2)) for i in range(d['nreq'])] + ['d%d * %d' % (i, 1000 * (i + 1)) for i in range(len(d['defaults']))])
